@@ -1,13 +1,11 @@
-INIT Init
-NEXT Next
+SPECIFICATION LiveSpec
 CONSTANT Vals <- ValsA
 CONSTANT MaxLen = 2
 CONSTANT MaxPend = 2
 CONSTANT MaxErr = 1
-CONSTANT MaxSyncs = 3
-CONSTANT KeepSched = TRUE
+CONSTANT MaxSyncs <- Unbounded
+CONSTANT KeepSched = FALSE
 CONSTANT OnlyCompliant = TRUE
-VIEW view
-ACTION_CONSTRAINT Emit
+PROPERTY EventuallyAllInSink NoFutureHangs
 INVARIANT WholeFramesInOrder NothingPendingWhenClean OkReportsLength NoBytesFromRejected OffsetBounded
 CHECK_DEADLOCK FALSE
